@@ -16,11 +16,11 @@ class CallMixin:
         # spec primitives that need the un-evaluated argument
         if isinstance(e.func, ast.Name):
             nm = e.func.id
-            if nm == "old" and st.spec:
+            if nm == "old" and (st.spec or st.old is not None) and "old" not in st.env:
                 return self.spec_old(e, st)
-            if nm == "entry" and st.spec:
+            if nm == "entry" and "entry" not in st.env:
                 return self.spec_old(e, st, which="__loop_entry__")
-            if nm == "prev" and st.spec:
+            if nm == "prev" and "prev" not in st.env:
                 return self.spec_old(e, st, which="__iter_start__")
             if nm == "allocated" and st.spec:
                 v = self.eval(e.args[0], st)
